@@ -18,7 +18,17 @@ def c02_array_equality():
     return not v.is_false()
 
 
-CHECKS = {"c02-array-equality": c02_array_equality}
+def c03_single_argument():
+    from pysmt.environment import get_env
+    m = get_env().formula_manager
+    try:
+        r = m.Min(String("a"))
+        return r is not None
+    except Exception:
+        return False
+
+
+CHECKS = {"c03-single-argument": c03_single_argument, "c02-array-equality": c02_array_equality}
 
 if __name__ == "__main__":
     sys.exit(1 if CHECKS[sys.argv[1]]() else 0)
